@@ -42,12 +42,16 @@ def main():
         meta["demo_patched_exit"] = rc1
         meta["demo_patched_tail"] = o1.strip().splitlines()[-3:]
         if tests:
-            rct, ot = sh("/venv/bin/python -m pytest -q -p no:cacheprovider "
-                         f"{tests}", cwd=wt, env=env)
+            rct, ot = sh("/venv/bin/python -m pytest -q -rf -p "
+                         f"no:cacheprovider {tests}", cwd=wt, env=env)
             meta["tests_run"] = tests
             meta["tests_tail"] = ot.strip().splitlines()[-1:]
+            # the two test_cli ...[subprocess] tests fail on the pinned tree
+            # too (they are not part of the 263 stable tests)
+            failed = [ln for ln in ot.splitlines() if ln.startswith("FAILED")]
             meta["tests_pass_with_patch"] = (rct == 0) or (
-                "test_main" in ot and " 2 failed" in ot)
+                bool(failed) and all("test_cli.py" in ln and
+                                     "subprocess" in ln for ln in failed))
     finally:
         sh(f"git -C /repo worktree remove --force {wt}")
     # ---- run the check against /repo with the patch applied
